@@ -111,6 +111,49 @@ def sepText : Sep → Str
 def yes : Str := "yes".toList
 def no : Str := "no".toList
 
+/-- insertion sort by code-point order (= Rust `String` ordering): `vars.sort()` -/
+def insertSorted (x : Str) : List Str → List Str
+  | [] => [x]
+  | y :: ys => if Codec.strLt y x then y :: insertSorted x ys else x :: y :: ys
+
+def sortStrs : List Str → List Str
+  | [] => []
+  | x :: xs => insertSorted x (sortStrs xs)
+
+/-- `HashMap::insert` on an association list: a later value for the same key replaces the earlier -/
+def envInsert (k v : Str) : List (Str × Str) → List (Str × Str)
+  | [] => [(k, v)]
+  | p :: r => if p.1 = k then (k, v) :: r else p :: envInsert k v r
+
+/-- `environment()`: one `KEY=value` per line, split at the first `=` (`unwrap`: a line without `=`
+    panics); as the sorted list of `KEY=value` of the resulting map -/
+def decodeEnv (raw : Str) : Val :=
+  let rec go : List Str → List (Str × Str) → Option (List (Str × Str))
+    | [], m => some m
+    | l :: ls, m =>
+      match Codec.splitOnFirst ['='] l with
+      | some r => go ls (envInsert r.1 r.2 m)
+      | none => none
+  match go (lines raw) [] with
+  | some m => .list (sortStrs (m.map fun p => p.1 ++ '=' :: p.2))
+  | none => .panic
+
+def vcsPrefix : Str := "Vcs-".toList
+def vcsBrowser : Str := "Vcs-Browser".toList
+
+/-- `Source::vcs()`: the first `Vcs-<X>` item other than `Vcs-Browser` decides; printed as the
+    harness prints a `Vcs` (`to_field`: name, blank, value) -/
+def vcsScan : List (Str × Str) → Val
+  | [] => .absent
+  | f :: fs =>
+    if f.1 = vcsBrowser then vcsScan fs
+    else match stripPrefix vcsPrefix f.1 with
+      | some x =>
+        match Codec.Vcs.fromField x f.2 with
+        | some v => .text (v.toField.1 ++ ' ' :: v.toField.2)
+        | none => .absent
+      | none => vcsScan fs
+
 /-- DEC: the reading of a raw field text -/
 def decode (sh : Shape) (strict assume : Bool) (raw : Str) : Val :=
   match sh with
@@ -143,6 +186,7 @@ def decode (sh : Shape) (strict assume : Bool) (raw : Str) : Val :=
   | .originField => .origin (Codec.parseOrigin raw).1 (Codec.parseOrigin raw).2
   | .rfc2822 => if assume then .text raw else .unmodelled
   | .dateYmd => if assume then .text raw else .unmodelled
+  | .envMap => decodeEnv raw
   | _ => .unmodelled
 
 /-- ENC: the text a setter of this shape writes for a value; `none`: not a value of the shape
@@ -160,7 +204,33 @@ def encode (sh : Shape) (v : Val) : Option Str :=
   | .originField, .origin c o => some (Codec.formatOrigin c o)
   | .rfc2822, .text s => some s
   | .dateYmd, .text s => some s
+  | .envMap, .list l => some (join ['\n'] (sortStrs l))
   | _, _ => none
+
+/-- first line of a field text / what follows its first newline -/
+def firstLineOf (o : Str) : Str :=
+  match Codec.splitOnFirst ['\n'] o with
+  | some r => r.1
+  | none => o
+
+/-- the text a setter writes, given the current text `old` of the field it is about to write
+    (`none`: no field of its names is present).  Only the DEP-3 synopsis / long-description setters
+    look at `old`:
+      set_description       old = first ++ "\n" ++ rest ↦ v ++ "\n" ++ rest;  old without newline ↦ v;  absent ↦ v
+      set_long_description  old ↦ firstLine(old) [++ "\n" ++ v unless v is empty];                      absent ↦ v -/
+def writeText (sh : Shape) (old : Option Str) (v : Val) : Option Str :=
+  match sh, v with
+  | .firstLine, .text s =>
+    some (match old with
+      | some o => (match Codec.splitOnFirst ['\n'] o with
+        | some r => s ++ '\n' :: r.2
+        | none => s)
+      | none => s)
+  | .restLines, .text s =>
+    some (match old with
+      | some o => if s = [] then firstLineOf o else firstLineOf o ++ '\n' :: s
+      | none => s)
+  | _, _ => encode sh v
 
 /-! ## rows on a paragraph (children of the PARAGRAPH node) -/
 
@@ -196,6 +266,8 @@ def getSem (r : Row) (assume : Bool) (cs : List DNode) : Val :=
     match firstOf cs r.names with
     | none => absentVal r
     | some raw => decode r.shape r.strict assume raw
+  | .items =>
+    if r.shape == .vcsScan then vcsScan (items (.node .PARAGRAPH cs)) else .unmodelled
   | _ => .unmodelled
 
 def applyOp (op : POp) (cs : List DNode) (k v : Str) : Option (List DNode) :=
@@ -216,20 +288,22 @@ def clears (r : Row) (v : Val) : Bool :=
   | .flag false => r.shape == .flagYesOrRemove
   | _ => false
 
+/-- the field a setter writes: the first of its names that is present, else its default name
+    (`if contains(A) || !contains(B) { A } else { B }`, `if let Some(_) = get(A) … else if … get(B) …`) -/
+def target (cs : List DNode) (names : List Str) (dflt : Str) : Str :=
+  match names.find? fun n => (pget cs n).isSome with
+  | some n => n
+  | none => dflt
+
 /-- the setter of a row; `none`: not modelled (composite / opaque rows, ill-typed value) -/
 def setSem (r : Row) (v : Val) (cs : List DNode) : Option (List DNode) :=
-  match r.names with
-  | [k] =>
+  if r.names.isEmpty then none
+  else
+    let k := target cs r.names r.dflt
     if clears r v then applyClear r.clearOp cs k
-    else match encode r.shape v with
+    else match writeText r.shape (firstOf cs r.names) v with
       | some t => applyOp r.op cs k t
       | none => none
-  | [k1, k2] =>
-    -- `if contains_key(k2) { op(k2, v) } else { op(k1, v) }` (DEP-3 author: From / Author)
-    match r.shape, encode r.shape v with
-    | .str, some t => if (pget cs k2).isSome then applyOp r.op cs k2 t else applyOp r.op cs k1 t
-    | _, _ => none
-  | _ => none
 
 /-! ## paragraph-level lookups of the document views (`Control::source`, `binaries`, …) -/
 
